@@ -216,6 +216,8 @@ def run_trace(cfg, trace, kinds, init_env=None, observe=None, timeout=10.0):
             self.i = i
 
         def do(self, env, config):
+            if warm[0]:                      # concrete warm-up run on the prior graph (Config.prior)
+                return {self.name: {'result': payloads[self.i]}}, TaskStatus.DONE
             ctl.yield_point(f'do({self.i})')
             counts[self.i] += 1
             # what this task can read when it starts
@@ -243,7 +245,15 @@ def run_trace(cfg, trace, kinds, init_env=None, observe=None, timeout=10.0):
                 return upd_ok, 'bogus'
             return 42, TaskStatus.DONE
 
+    warm = [False]
     tasks = [ProbeTask(n, i) for i, n in enumerate(cfg.names)]
+    if getattr(cfg, 'prior', None) is not None:
+        from .roles import Config as _Cfg
+        warm[0] = True
+        ph, ps = cfg.prior
+        h0, s0 = _graphs(_Cfg(cfg.n, ph, ps, 1), tasks)
+        Scheduler(hard_graph=h0, soft_graph=s0, backend=qmod.QueueScheduling(n_workers=1)).schedule(env=Env())
+        warm[0] = False
     env = Env(init_env or {})
     env.lock = CtlRLock(ctl)
     queue = CtlQueue(ctl, tasks)
